@@ -1273,6 +1273,15 @@ Proof.
     apply Z.div_le_upper_bound; [exact Hp|]. nia.
 Qed.
 
+Lemma cc_opp_ge : forall m q,
+  match CompOpp (Pos.compare_cont Eq m q) with Lt => false | _ => true end = true ->
+  (m <= q)%positive.
+Proof.
+  intros m q H. assert (E : Pos.compare_cont Eq m q = Pos.compare m q) by reflexivity.
+  rewrite E in H. destruct (Pos.compare_spec m q) as [Hq|Hq|Hq]; cbn [CompOpp] in H;
+    [lia|lia|discriminate].
+Qed.
+
 Lemma fits_trunc_range : forall f, valid_binary 24 128 f = true -> f32_fits_i64 f = true ->
   - 2 ^ 63 <= f_trunc f < 2 ^ 64.
 Proof.
@@ -1285,9 +1294,9 @@ Proof.
   - (* negative: magnitude at most 2^63 *)
     assert (Hmag : Z.pos m * 2 ^ Z.max e 0 <= 2 ^ 63).
     { destruct (Z.compare_spec e 40) as [He|He|He]; [| |discriminate].
-      - subst e. change (Pos.compare_cont Eq m 8388608) with (Pos.compare m 8388608) in Hge.
-        destruct (Pos.compare_spec m 8388608) as [Hq|Hq|Hq]; cbn [CompOpp] in Hge;
-          [| |discriminate]; change (Z.max 40 0) with 40; lia.
+      - apply cc_opp_ge in Hge. rewrite He, Z.max_l by lia.
+        replace (2 ^ 63) with (8388608 * 2 ^ 40) by reflexivity.
+        apply Z.mul_le_mono_nonneg_r; [apply Z.pow_nonneg|]; lia.
       - assert (2 ^ Z.max e 0 <= 2 ^ 39) by (apply Z.pow_le_mono_r; lia).
         assert (0 < 2 ^ Z.max e 0) by (apply Z.pow_pos_nonneg; lia).
         change (2 ^ 63) with (2 ^ 24 * 2 ^ 39). nia. }
@@ -1295,7 +1304,9 @@ Proof.
   - (* positive: magnitude below 2^63 *)
     assert (Hmag : Z.pos m * 2 ^ Z.max e 0 <= 2 ^ 63 - 1).
     { destruct (Z.compare_spec e 39) as [He|He|He]; [| |discriminate].
-      - subst e. change (Z.max 39 0) with 39. change (2 ^ 63) with (2 ^ 24 * 2 ^ 39). lia.
+      - rewrite He, Z.max_l by lia.
+        replace (2 ^ 63) with (2 ^ 24 * 2 ^ 39) by reflexivity.
+        assert (0 < 2 ^ 39) by (apply Z.pow_pos_nonneg; lia). nia.
       - assert (2 ^ Z.max e 0 <= 2 ^ 38) by (apply Z.pow_le_mono_r; lia).
         assert (0 < 2 ^ Z.max e 0) by (apply Z.pow_pos_nonneg; lia).
         change (2 ^ 63) with (2 ^ 25 * 2 ^ 38). nia. }
